@@ -25,6 +25,7 @@ type harnessSpec struct {
 	Interleave bool     `json:"interleave"` // scheduler decisions at preemption points
 	Thorough   bool     `json:"thorough_only"`
 	MaxPaths   int      `json:"max_paths"`
+	MaxSteps   int      `json:"max_steps"` // unwinding bound: instructions per path (default 3,000,000)
 	Solver     string   `json:"solver"`
 	Fallback   string   `json:"fallback"`
 	Note       string   `json:"note"`
@@ -183,6 +184,9 @@ func cmdCheck(args []string) int {
 			}
 			if h.MaxPaths > 0 {
 				cfg.MaxPaths = h.MaxPaths
+			}
+			if h.MaxSteps > 0 {
+				cfg.MaxSteps = h.MaxSteps
 			}
 			if h.Solver != "" {
 				cfg.SolverKind = h.Solver
@@ -570,6 +574,10 @@ func TestVFReplay(t *testing.T) {
 	if loops > 1 {
 		addYieldOverlay(ov, scratch, yieldDirs(module))
 	}
+	if replayHasClock(replayPath) {
+		// the counterexample depends on what the clock read: the server packages read the recorded instants
+		addClockOverlay(ov, scratch, []string{"server/schema", "server/service", "server/snapshot", "server/utils", "server/mongodb"})
+	}
 	testFile := filepath.Join(scratch, "zz_vf_replay_test.go")
 	os.WriteFile(testFile, []byte(testSrc), 0o644)
 	ov[filepath.Join(pkgDir, "zz_vf_replay_test.go")] = testFile
@@ -625,10 +633,30 @@ func TestVFReplay(t *testing.T) {
 	return last
 }
 
+func replayHasClock(path string) bool {
+	var rec struct {
+		Inputs []struct {
+			Kind string `json:"kind"`
+		} `json:"inputs"`
+	}
+	if readJSON(path, &rec) != nil {
+		return false
+	}
+	for _, in := range rec.Inputs {
+		if in.Kind == "clock" {
+			return true
+		}
+	}
+	return false
+}
+
 // yieldDirs: the packages whose statements become scheduling points in the
 // native replay of an interleaving counterexample.
 func yieldDirs(module string) []string {
-	if module == "server" || module == "serverreal" {
+	if module == "serverreal" {
+		return []string{"server/mongodb", "server/schema"}
+	}
+	if module == "server" {
 		return []string{"server/utils", "server/service", "server/snapshot", "server/managers", "server/notification",
 			"client/pkg/internal/datatypes", "client/pkg/internal/managers", "client/pkg/orda/client.go"}
 	}
